@@ -473,6 +473,7 @@ func main() {
 		}
 	}
 	bigSets(r)
+	churnSets(r)
 	r.Sample(map[string]any{"A": "sync2.Set[0 2] via [Add(0) Add(1) Len Remove(1) Add(2)]", "B": "maps.Set[1 2]", "ops": "Union Intersect SetDiff SymDiff AddSet RemoveSet CartesianProduct"})
 	r.Set("states", int64(states)+e.Inputs)
 	r.Set("transitions", int64(trans)+e.Calls)
@@ -680,4 +681,77 @@ func bigSets(r *ev.Run) {
 		}
 	}
 	r.Set("large_size_family_calls", calls)
+}
+
+// churnSets: ONE set of each implementation driven through a long history over 40 values; every
+// Add/Remove/Has result compared with a map model, Len/Slice/Range every 97 calls, and the set
+// algebra against a second set every 1999 calls.
+func churnSets(r *ev.Run) {
+	n := ev.Pick(r, 60000, 600000)
+	for _, k := range []kind{kMaps, kSync} {
+		s := newSet(k)
+		model := map[int]bool{}
+		var g enum.LCG = 7
+		bad := ""
+		for i := 0; i < n && bad == ""; i++ {
+			v, op := g.Next(40), g.Next(8)
+			if ev.Tracing() {
+				ev.Trace(map[string]any{"family": "churn-sets", "impl": int(k), "step": i, "op": op, "value": v})
+			}
+			switch {
+			case op < 3:
+				if got := s.Add(v); got != !model[v] {
+					bad = fmt.Sprintf("call %d: Add(%d) = %v, want %v", i, v, got, !model[v])
+				}
+				model[v] = true
+			case op < 6:
+				if got := s.Remove(v); got != model[v] {
+					bad = fmt.Sprintf("call %d: Remove(%d) = %v, want %v", i, v, got, model[v])
+				}
+				delete(model, v)
+			default:
+				if got := s.Has(v); got != model[v] {
+					bad = fmt.Sprintf("call %d: Has(%d) = %v, want %v", i, v, got, model[v])
+				}
+			}
+			if i%97 == 0 && bad == "" {
+				sl := s.Slice()
+				seen := map[int]bool{}
+				for _, x := range sl {
+					if !model[x] || seen[x] {
+						bad = fmt.Sprintf("call %d: Slice contains %d (not a member, or twice)", i, x)
+					}
+					seen[x] = true
+				}
+				cnt := 0
+				s.Range(func(int) bool { cnt++; return true })
+				if s.Len() != len(model) || len(sl) != len(model) || cnt != len(model) {
+					bad = fmt.Sprintf("call %d: Len %d, Slice %d, Range %d, model %d", i, s.Len(), len(sl), cnt, len(model))
+				}
+			}
+			if i%1999 == 0 && bad == "" {
+				o := newSet(1 - k)
+				om := map[int]bool{}
+				for x := 0; x < 40; x += 3 {
+					o.Add(x)
+					om[x] = true
+				}
+				check := func(name string, res sets.Set[int], f func(a, b bool) bool) {
+					for x := 0; x < 40; x++ {
+						if res.Has(x) != f(model[x], om[x]) {
+							bad = fmt.Sprintf("call %d: %s wrong for value %d", i, name, x)
+						}
+					}
+				}
+				check("Union", s.Union(o), func(a, b bool) bool { return a || b })
+				check("Intersect", s.Intersect(o), func(a, b bool) bool { return a && b })
+				check("SetDiff", s.SetDiff(o), func(a, b bool) bool { return a && !b })
+				check("SymDiff", s.SymDiff(o), func(a, b bool) bool { return a != b })
+			}
+		}
+		if bad != "" {
+			r.Report(ev.Violation{Sig: "family|churn", Msg: fmt.Sprintf("long history on one %s: %s", []string{"maps.Set", "sync2.Set"}[k], bad), Replay: map[string]any{"family": "churn-sets", "impl": int(k)}})
+		}
+	}
+	r.Set("churn_family_operations", 2*n)
 }
